@@ -1073,7 +1073,9 @@ class ExprGen(Gen):
             vs = [v for v in env.vars.values() if v.cur in (("list", INT), ("seq", INT), ("vtuple", INT), ("set", INT), ("list", BOOL))]
             if vs:
                 return "sum(%s)" % r.choice(vs).name, INT
-            return "sum([%s, %s])" % (e(INT), e(INT)), INT
+            # typeshed types sum(Iterable[T]) as T | Literal[0]: with Literal-typed items that is not an upper
+            # bound of the result (typeshed-level unsoundness, kept out of the vetted surface) -> force plain ints
+            return "sum([%s + 0, %s + 0])" % (e(INT), e(INT)), INT
         if ch == 7:
             return "%s.%s(%s)" % (self.paren(e(STR)), r.choice(["count", "find"]), e(STR)), INT
         if ch == 8 and self.cfg.on("ops"):
@@ -2595,6 +2597,8 @@ class FullGen(StmtGen):
                 sigs[ci.name] = {"params": [(n, render(t), w.wrong_values(t)) for n, t in ci.fields], "kwonly": 0, "defaults": []}
         fields = sorted({f for ci in w.classes.values() if ci.flavor in ("plain", "data", "nt") for f, _ in ci.fields})
         sigs["__attrs__"] = fields + sorted(w.method_sig)
+        if getattr(w, "excluded_lit_tuples", 0):
+            self.lab("excluded:literal-inside-tuple", w.excluded_lit_tuples)
         self.lab("probes", len(self.probes))
         self.lab("drivers", len(drivers))
         return Program("\n".join(self.out) + "\n", self.probes, drivers, sigs, self.labels, cfg.iaf, seed)
